@@ -118,6 +118,10 @@ _find_vars(value, last) := {"assign": _find_assign_vars(value)} if {
 	value[0].type == "ref"
 	value[0].value[0].type == "var"
 	value[0].value[0].value in {"assign", "eq"}
+
+	# x := y and x = y have two operands; eq(x, y, z) — a call with an explicit
+	# return value — is handled above (both at once would be a conflict)
+	count(value) == 3
 }
 
 _find_vars(value, last) := {"somein": _find_some_in_decl_vars(value)} if {
